@@ -223,7 +223,7 @@ const MAX_SAMPLES: usize = 4;
 
 impl Run {
     pub fn new(property: &str, tier: Tier, seed: u64, worker: u32, workers: u32) -> Run {
-        let profile = if cfg!(debug_assertions) { "chk" } else { "rel" }.to_string();
+        let profile = std::env::var("VERIF_PROFILE").unwrap_or_else(|_| if cfg!(debug_assertions) { "chk" } else { "rel" }.to_string());
         let mut report = Report::default();
         report.property = property.to_string();
         report.tier = match tier {
